@@ -384,3 +384,13 @@ func c19world() *nworld {
 	return w
 }
 
+
+// ---- exported handles for harnesses that live in package x/nodes (the message handlers) ----
+
+func NwWorldForHandlers() *nworld                       { return nwNew(false) }
+func (w *nworld) VK() Keeper                        { return w.k }
+func (w *nworld) VCtx() *vworld.Ctx                 { return w.ctx }
+func (w *nworld) VAddr(i int) sdk.Address           { return w.addrs[i] }
+func (w *nworld) VFund(a sdk.Address) *big.Int      { return w.fund(a) }
+func (w *nworld) VBal(a sdk.Address) *big.Int       { return w.bal(a) }
+func (w *nworld) VSupply() *big.Int                 { return w.k.TotalTokens(w.ctx).BigInt() }
